@@ -18,6 +18,7 @@ package cloudblob
 
 import (
 	"context"
+	"crypto/sha256"
 	"errors"
 	"fmt"
 	"io"
@@ -117,7 +118,11 @@ func (e *ruleSetEndpoint) readRuleSet(ctx context.Context, bucket *blob.Bucket, 
 
 	defer reader.Close()
 
-	contents, err := config.ParseRules(attrs.ContentType, reader, false)
+	// not every store provides the MD5 hash of the blob (e.g. not for multipart or encrypted
+	// uploads). Since the hash is used to detect updates, it is then calculated over the contents
+	digest := sha256.New()
+
+	contents, err := config.ParseRules(attrs.ContentType, io.TeeReader(reader, digest), false)
 	if err != nil {
 		return nil, errorchain.
 			NewWithMessage(heimdall.ErrInternal, "failed to decode received rule set").
@@ -125,6 +130,12 @@ func (e *ruleSetEndpoint) readRuleSet(ctx context.Context, bucket *blob.Bucket, 
 	}
 
 	contents.Hash = attrs.MD5
+	if len(contents.Hash) == 0 {
+		// the parser may have stopped before the end of the document
+		io.Copy(digest, reader) //nolint:errcheck
+
+		contents.Hash = digest.Sum(nil)
+	}
 	contents.Source = fmt.Sprintf("%s@%s", key, e.ID())
 	contents.ModTime = attrs.ModTime
 
